@@ -9,6 +9,8 @@ Emits
   * the filter on the stuck-path solver answer                      stuck_counts (r : Z) : bool
   * the --width cut                                                 width_cut (width path_id : Z) : bool
   * the verdict chain over the solver-answer counter                verdict (n_sat n_err n_unknown n_stuck normal : Z) : Z
+  * setup(): which explored paths count as successful               setup_path_ok (has_error is_stuck : bool) : bool
+    and which success path is kept given the solver answer           setup_keeps (r : Z) : bool
   * which of setup / run_test / run_target_function turn a non-empty
     `logs.bounded_loops` into the LOOP_BOUND warning                setup_warns_loop_bound, test_warns_loop_bound,
                                                                     target_warns_loop_bound : bool
@@ -230,6 +232,9 @@ def _classification(fn):
         raise TranslateError("run_test: --width cut not found")
     if not (_contains(width.body, lambda n: isinstance(n, ast.Break)) and _contains(width.body, lambda n: _calls(n, "warn"))):
         raise TranslateError("run_test: --width cut must warn and break")
+    for n in _walk_no_nested_defs(width):
+        if _calls(n, "warn") and (n.keywords or len(n.args) != 1):
+            raise TranslateError("run_test: the --width warning must be a plain warn(<text>) (never de-duplicated)")
     if loop.body.index(width) < loop.body.index(chain):
         raise TranslateError("run_test: --width cut now precedes the classification of the path")
     tw = Translator(names={"width": "width", "path_id": "path_id"})
@@ -246,15 +251,138 @@ def _is_nonempty_test(test, expr):
 def _warns_loop_bound(fn, logs_expr):
     """is there `if <logs_expr>.bounded_loops [is non-empty]: warn_code(LOOP_BOUND, ...)` at the top level of fn
     (not nested in a loop / try / other condition)"""
-    for st in fn.body:
-        if isinstance(st, ast.If) and _is_nonempty_test(st.test, f"{logs_expr}.bounded_loops") and not st.orelse:
-            if _contains(st.body, lambda n: isinstance(n, ast.Call) and ast.unparse(n.func) == "warn_code" and n.args and ast.unparse(n.args[0]) == "LOOP_BOUND"):
-                return True
-    return False
+    return any(_is_loop_bound_warning(st, logs_expr) for st in fn.body)
 
 
 def _mentions(fn, word):
     return any(isinstance(n, ast.Attribute) and n.attr == word for n in ast.walk(fn))
+
+
+def _is_loop_bound_warning(st, logs_expr):
+    return (isinstance(st, ast.If) and _is_nonempty_test(st.test, f"{logs_expr}.bounded_loops") and not st.orelse
+            and _contains(st.body, lambda n: isinstance(n, ast.Call) and ast.unparse(n.func) == "warn_code" and n.args
+                          and ast.unparse(n.args[0]) == "LOOP_BOUND" and not _dedup_kw(n)))
+
+
+def _dedup_kw(call):
+    """does the logging call ask for de-duplication (allow_duplicate=<anything but True>)"""
+    for k in call.keywords:
+        if k.arg == "allow_duplicate" and not (isinstance(k.value, ast.Constant) and k.value.value is True):
+            return True
+    return len(call.args) > 2
+
+
+def _target_warns_loop_bound(fn):
+    """run_target_function explores one target transaction with a PRIVATE SEVM (`<s> = SEVM(...)`), inside
+    a try/finally.  Its bounded-loop log reaches the user iff, in that try body, AFTER the statement
+    `yield from <s>.run_message(...)` (the generator has been drained: every path of the transaction has
+    been explored) and at the same nesting level (unconditionally), there is
+    `if <s>.logs.bounded_loops: warn_code(LOOP_BOUND, ...)` (not de-duplicated).
+    Any other mention of `bounded_loops` / `.logs` in the function is not understood: fail closed."""
+    tries = [st for st in fn.body if isinstance(st, ast.Try)]
+    if len(tries) != 1 or len(fn.body) != 1 + (1 if ast.get_docstring(fn) else 0):
+        raise TranslateError("run_target_function: expected a single try/finally as the body")
+    body = tries[0].body
+    if tries[0].handlers or tries[0].orelse:
+        raise TranslateError("run_target_function: the try has except/else clauses (a swallowed exception would skip the warning)")
+    sevms = [st.targets[0].id for st in body if isinstance(st, ast.Assign) and len(st.targets) == 1 and isinstance(st.targets[0], ast.Name)
+             and isinstance(st.value, ast.Call) and ast.unparse(st.value.func) == "SEVM"]
+    if len(sevms) != 1:
+        raise TranslateError(f"run_target_function: expected exactly one `<s> = SEVM(...)`, found {sevms}")
+    s = sevms[0]
+    runs = [i for i, st in enumerate(body) if isinstance(st, ast.Expr) and isinstance(st.value, ast.YieldFrom)
+            and _calls(st.value.value, f"{s}.run_message")]
+    if len(runs) != 1:
+        raise TranslateError(f"run_target_function: expected exactly one top-level `yield from {s}.run_message(...)` in the try body")
+    # no other way out of the try body between the run and the warning
+    warns = [i for i, st in enumerate(body) if _is_loop_bound_warning(st, f"{s}.logs")]
+    n_mentions = sum(1 for n in ast.walk(fn) if isinstance(n, ast.Attribute) and n.attr == "bounded_loops")
+    if not warns:
+        if n_mentions or _mentions(fn, "logs"):
+            raise TranslateError("run_target_function: mentions logs / bounded_loops but not in the recognised `if <s>.logs.bounded_loops: warn_code(LOOP_BOUND, ...)` form")
+        return False
+    if len(warns) != 1:
+        raise TranslateError("run_target_function: more than one LOOP_BOUND warning")
+    w = warns[0]
+    if w < runs[0]:
+        raise TranslateError("run_target_function: the LOOP_BOUND warning precedes the exploration of the transaction (the log is still empty)")
+    for st in body[runs[0] + 1:w]:
+        if _contains([st], lambda n: isinstance(n, (ast.Return, ast.Raise, ast.Break, ast.Continue)) or (isinstance(n, ast.Assign) and any(ast.unparse(t).startswith(s) for t in n.targets))):
+            raise TranslateError("run_target_function: control may leave (or the SEVM is replaced) between the exploration and the LOOP_BOUND warning")
+    return True
+
+
+def _strip_walrus(node):
+    class W(ast.NodeTransformer):
+        def visit_NamedExpr(self, n):
+            return self.visit(n.value)
+    return W().visit(node)
+
+
+def _setup_selection(fn):
+    """setup(): which explored paths of setUp count as successful, and which of several are kept.
+
+        for path_id, setup_ex in enumerate(setup_exs_all):
+            if <T(setup_ex)>: ... else: setup_exs_no_error.append((setup_ex, <query>))     -> setup_path_ok
+        match setup_exs_no_error:
+            case []: pass
+            case [(ex, _)]: setup_exs.append(ex)
+            case _:
+                for path_id, (ex, query) in enumerate(setup_exs_no_error):
+                    solver_output = solve_low_level(path_ctx)
+                    if <F(solver_output.result)>: setup_exs.append(ex); if len(setup_exs) > 1: break  -> setup_keeps
+        match len(setup_exs): case 0: raise ...; case n if n > 1: raise ...
+        [setup_ex] = setup_exs
+    -> (setup_path_ok : has_error is_stuck -> bool, setup_keeps : Z -> bool)"""
+    loops = [st for st in fn.body if isinstance(st, ast.For) and ast.unparse(st.iter) == "enumerate(setup_exs_all)"]
+    if len(loops) != 1 or ast.unparse(loops[0].target) != "(path_id, setup_ex)" or loops[0].orelse:
+        raise TranslateError("setup: `for path_id, setup_ex in enumerate(setup_exs_all)` not found (once, at the top level)")
+    is_app = lambda n: isinstance(n, ast.Expr) and _calls(n.value, "setup_exs_no_error.append")  # noqa: E731
+    apps = [n for n in ast.walk(fn) if isinstance(n, ast.Call) and ast.unparse(n.func) == "setup_exs_no_error.append"]
+    if len(apps) != 1 or not ast.unparse(apps[0].args[0]).startswith("(setup_ex, setup_ex.path.to_smt2("):
+        raise TranslateError("setup: expected exactly one `setup_exs_no_error.append((setup_ex, setup_ex.path.to_smt2(...)))`")
+    sel = [st for st in loops[0].body if isinstance(st, ast.If) and (any(is_app(x) for x in st.body) or any(is_app(x) for x in st.orelse))]
+    if len(sel) != 1:
+        raise TranslateError("setup: the success-path test (the if around setup_exs_no_error.append) must sit directly in the loop over the explored paths")
+    for st in loops[0].body:
+        if st is not sel[0] and _contains([st], lambda n: isinstance(n, (ast.Continue, ast.Break, ast.Return, ast.Raise))):
+            raise TranslateError("setup: control may leave the loop over the explored paths before the success-path test")
+    table = {"setup_ex.context.output.error": "has_error", "setup_ex.context.is_stuck()": "is_stuck"}
+    tr = Translator(bool_names={"has_error", "is_stuck"})
+    test = _truthy(tr, _Sub(table).visit(_strip_walrus(sel[0].test)))
+    in_body = any(is_app(x) for x in sel[0].body)
+    if _contains(sel[0].body if in_body else sel[0].orelse, lambda n: isinstance(n, (ast.Continue, ast.Break, ast.Return, ast.Raise))):
+        raise TranslateError("setup: the success arm leaves the loop")
+    path_ok = test if in_body else f"(negb {test})"
+    # the selection among several success paths
+    matches = [st for st in fn.body if isinstance(st, ast.Match)]
+    if len(matches) != 2 or ast.unparse(matches[0].subject) != "setup_exs_no_error" or ast.unparse(matches[1].subject) != "len(setup_exs)":
+        raise TranslateError("setup: expected `match setup_exs_no_error` followed by `match len(setup_exs)`")
+    pats = [ast.unparse(c.pattern) for c in matches[0].cases]
+    if pats != ["[]", "[[ex, _]]", "_"] or any(c.guard is not None for c in matches[0].cases):
+        raise TranslateError(f"setup: unexpected cases of `match setup_exs_no_error`: {pats}")
+    if [ast.unparse(x) for x in matches[0].cases[0].body] != ["pass"] or [ast.unparse(x) for x in matches[0].cases[1].body] != ["setup_exs.append(ex)"]:
+        raise TranslateError("setup: the [] / [(ex, _)] cases are not `pass` / `setup_exs.append(ex)`")
+    many = matches[0].cases[2].body
+    if len(many) != 1 or not isinstance(many[0], ast.For) or ast.unparse(many[0].iter) != "enumerate(setup_exs_no_error)" or ast.unparse(many[0].target) != "(path_id, (ex, query))":
+        raise TranslateError("setup: the general case is not `for path_id, (ex, query) in enumerate(setup_exs_no_error)`")
+    body = many[0].body
+    srcs = [ast.unparse(x) for x in body]
+    if len(body) != 3 or not srcs[0].startswith("path_ctx = PathContext(") or srcs[1] != "solver_output = solve_low_level(path_ctx)" or not isinstance(body[2], ast.If) or body[2].orelse:
+        raise TranslateError("setup: unexpected body of the selection loop")
+    if "query=query" not in srcs[0].replace(" ", ""):
+        raise TranslateError("setup: the selection loop does not solve the path's own query")
+    if [ast.unparse(x) for x in body[2].body] != ["setup_exs.append(ex)", "if len(setup_exs) > 1:\n    break"]:
+        raise TranslateError("setup: the kept path is not appended as expected (append; stop after the second)")
+    t2 = Translator(names={"r": "r"}, consts={"unsat": 0, "sat": 1, "unknown": 2})
+    keeps = _truthy(t2, _Sub({"solver_output.result": "r"}).visit(body[2].test))
+    arms = [(ast.unparse(c.pattern), ast.unparse(c.guard) if c.guard else None, [type(x).__name__ for x in c.body]) for c in matches[1].cases]
+    if [(a, g) for a, g, _ in arms] != [("0", None), ("n", "n > 1")] or arms[0][2] != ["Raise"] or arms[1][2][-1] != "Raise":
+        raise TranslateError(f"setup: unexpected `match len(setup_exs)`: {arms}")
+    after = [ast.unparse(st) for st in fn.body[fn.body.index(matches[1]) + 1:]]
+    if not after or after[0] != "[setup_ex] = setup_exs" or after[-1] != "return setup_ex":
+        raise TranslateError("setup: the selected state is not `[setup_ex] = setup_exs ... return setup_ex`")
+    return path_ok, keeps
 
 
 def translate(src_text):
@@ -268,7 +396,8 @@ def translate(src_text):
     logs_names = [st.targets[0].id for st in run_test.body if isinstance(st, ast.Assign) and len(st.targets) == 1 and isinstance(st.targets[0], ast.Name) and ast.unparse(st.value) == "sevm.logs"]
     test_warns = any(_warns_loop_bound(run_test, x) for x in logs_names + ["sevm.logs"])
     setup_warns = _warns_loop_bound(setup, "sevm.logs")
-    target_warns = _mentions(target, "bounded_loops") or _mentions(target, "logs")
+    target_warns = _target_warns_loop_bound(target)
+    setup_path_ok, setup_keeps = _setup_selection(setup)
     info = {"exitcodes": codes, "test_warns": test_warns, "setup_warns": setup_warns, "target_warns": target_warns}
     b = lambda x: "true" if x else "false"  # noqa: E731
     lines = [
@@ -296,6 +425,13 @@ def translate(src_text):
         "",
         "Definition verdict (n_sat n_err n_unknown n_stuck normal : Z) : Z :=",
         f"  {verdict}.",
+        "",
+        "(* setup(): an explored path of setUp counts as successful; a success path is kept given the solver answer on its query *)",
+        "Definition setup_path_ok (has_error is_stuck : bool) : bool :=",
+        f"  {setup_path_ok}.",
+        "",
+        "Definition setup_keeps (r : Z) : bool :=",
+        f"  {setup_keeps}.",
         "",
         f"Definition setup_warns_loop_bound : bool := {b(setup_warns)}.",
         f"Definition test_warns_loop_bound : bool := {b(test_warns)}.",
